@@ -11,7 +11,7 @@ CLAIM = {
          "error type/code for invalid ports, queues, stats types, vendors, commands and buffers, and for requests invalid at the framing level (a bare "
          "8-byte header of a type with a mandatory body: BAD_LEN; an unknown message type 22..255: BAD_TYPE) with the request's xid; no exception "
          "escapes and the connection stays open."
-         " Also: over-long statistics requests, header-rejected requests delivered in two segments, queue-config requests for any port, and a switch whose flow table is at capacity (O2_full_table).",
+         " Also: over-long statistics requests, header-rejected requests delivered in two segments, queue-config requests for any port, and a switch whose flow table is at capacity (O2_full_table). Every sequence is also delivered pipelined in one segment; switch-only message types get BAD_TYPE; O3_oversize (requests too long to quote whole) and O4_big_stats (multipart statistics replies).",
  'note': "Trusted: CPython, z3, symx proxies/shims, the expected-reply table in props/C13.py. Bounded: 3 requests per sequence, switch with 4 ports and "
          "at most one installed flow.",
 }
